@@ -573,6 +573,7 @@ func init() {
 			{ID: "C11-rollup", Floor: 4, Run: c11Rollup, Text: "[PROV]+[DOM] rollup exit tree update arguments, guards and recorded root"},
 			{ID: "C11-lookup", Floor: 3, Run: c11Lookup, Text: "[SCHEMA]+SQL lookups by index and GER"},
 			{ID: "C11-order", Floor: 9, Run: c11Order, Text: "SQL: first/last accessors order by chain position, restricted by exactly their arguments"},
+			{ID: "C11-tree", Floor: 9, Run: func(c *core.Ctx) { storeRule(c, "C11-tree") }, Text: "(shared with C08-store) every node of an updated path is stored; lookups by key"},
 			{ID: "C11-upsert", Floor: 2, Run: func(c *core.Ctx) { treeUpsert(c, "C11-upsert") }, Text: "[TREE] (shared with C08) UpsertLeaf orientation"},
 		},
 	})
